@@ -90,7 +90,7 @@ EdgeBody(k) == LET src == EdgeSeq[k]  d == [q |-> "d", src |-> src] IN
 \* of the lines (YangString!Exo2): they are ordinary characters of the argument
 ExoSeq == SetToSeq(UNION {Exo2(x, 12, <<LF>>, FALSE) \cup Exo2(x, 3, <<CR, LF>>, FALSE) : x \in ExoChars})
 NExo == Len(ExoSeq)
-ExoStep == IF Thorough THEN 16 ELSE 40      \* every 16th / 40th source
+ExoStep == IF Thorough THEN 32 ELSE 40      \* every 32nd / 40th source
 ExoBody(k) == LET src == ExoSeq[k]  d == [q |-> "d", src |-> src] IN
   <<RawNode(C("x:b-c"), <<d>>, << >>),
     Cont(Ids[1], <<RawNode(C("description"), <<d>>, << >>), RawNode(C("x:b-c"), <<[q |-> "s", src |-> src]>>, << >>)>>)>>
@@ -167,7 +167,7 @@ BomLayouts(f, tid, body) ==
       uni(t) == [b \in 1..k |-> IF b % Slots = 2 THEN (IF t = 3 THEN 2 ELSE 0) ELSE t]
   IN {V(uni(t), Zero(k), 0, Feat("bom", 0, t)) : t \in {0, 3, 6, 1}}
      \cup {LET e == RandomElement(0..(Len(TrivEnd) - 1)) IN
-           V([b \in 1..k |-> RandomElement(0..(MaxMenu - 1))], [b \in 1..k |-> RandomElement(0..5)], e, Feat("bom-random", 0, j)) : j \in 1..(IF Thorough THEN NLay ELSE 2)}
+           V([b \in 1..k |-> RandomElement(0..(MaxMenu - 1))], [b \in 1..k |-> RandomElement(0..5)], e, Feat("bom-random", 0, j)) : j \in 1..(IF Thorough THEN 4 ELSE 2)}
 \* big blocks are rendered directly (the general layout machinery is too slow for hundreds of statements): ASCII, unquoted
 \* arguments, one blank between tokens; a statement is written on one line ("flat") or, down to depth d, with every
 \* substatement on a line of its own, indented by two blanks per level.  Positions follow by construction; for the smaller
@@ -199,11 +199,18 @@ BigVec(f, tid, body, d) ==
   LET src == Module(body)
       r == LinesStmt(src, 1, 0, d)
       text == r.text \o <<LF>>
-      small == CountStmts(src) <= 40
+      small == CountStmts(src) <= 16
   IN [fam |-> f, tid |-> tid, text |-> text, tree |-> r.tree, hasTree |-> TRUE, judged |-> TRUE, feat |-> Feat("big", 0, d), layoutFree |-> TRUE,
       wordThenComment |-> FALSE, lineCommentAtEnd |-> FALSE,
       ok |-> ~small \/ LET p == ParseText(text) IN Assert(p.ok /\ p.tree = r.tree, <<"spec fault: the reader does not find the tree of a directly rendered text", text>>)]
 BigLayouts(f, tid, body, n) == {BigVec(f, tid, body, d) : d \in 0..3}
+\* the same text after a byte order mark: only the first line changes (the mark is 3 bytes of it)
+BigBomVec(f, tid, body, d) ==
+  LET v == BigVec(f, tid, body, d)
+      text == <<BOM>> \o v.text
+      tree == [v.tree EXCEPT !.col = Width(BOM), !.colJ = FALSE, !.kwAlt = <<BOM>> \o v.tree.kw]
+  IN [v EXCEPT !.text = text, !.tree = tree, !.layoutFree = FALSE, !.feat = Feat("bom-big", 0, d),
+               !.ok = CountStmts(Module(body)) > 16 \/ LET p == ParseText(text) IN Assert(p.ok /\ p.tree = tree, <<"spec fault: the reader does not find the tree of a directly rendered text", text>>)]
 
 Cases ==
   UNION {Layouts(fam, i, Small[i], FullSet(i, Small[i])) : i \in {i \in 1..Len(Small) : i % NFam = fam % NFam}}
@@ -213,7 +220,7 @@ Cases ==
   \cup UNION {Layouts(fam, 7000 + k, ExoBody(k), "light2") : k \in {k \in 1..NExo : k % ExoStep = 0 /\ (k \div ExoStep) % NFam = fam % NFam}}
   \cup UNION {UNION {BigLayouts(fam, 4000 + 4 * n + v, BigBody(n, v), n) : v \in BigVariants(n)} : n \in {n \in BigSizes : n % NFam = fam % NFam}}
   \cup UNION {BomLayouts(fam, 6000 + i, Small[i]) : i \in {i \in 1..Len(Small) : i % NFam = fam % NFam /\ (Thorough \/ i % 2 = 0)}}
-  \cup UNION {BomLayouts(fam, 6500 + n, BigBody(n, 1)) : n \in {n \in {3, 17, 33} : n % NFam = fam % NFam}}
+  \cup UNION {{BigBomVec(fam, 6500 + n, BigBody(n, n % 2), d) : d \in 1..3} : n \in {n \in 1..40 : n % NFam = fam % NFam}}
   \cup UNION {Layouts(fam, 1000 * (fam + 1) + j, RandBody(j), "full") : j \in 1..NTrees}
 GInit == fam \in 0..(NFam - 1) /\ done = FALSE
 GNext == /\ ~done /\ done' = TRUE /\ UNCHANGED fam
